@@ -19,6 +19,7 @@ pub mod case;
 pub mod exec;
 pub mod fsio;
 pub mod model;
+pub mod oo;
 
 // ------------------------------------------------------------------------------------------
 // strategies
@@ -465,6 +466,36 @@ pub fn run(ctx: &Ctx) {
     lap("readdir");
     ctx.run_prop("rename-misc", ctx.cases(200, 2_000), case_of(tree(10, 40, 1, 5000), op_misc(), 8), f);
     lap("rename-misc");
+    // OpenOptions, the mechanism behind write/copy/open: every switch combination on every kind of path, then generated
+    if ctx.is_replay() {
+        if let Some(c) = ctx.replay_case::<oo::OoCase>("open-options-grid") {
+            ctx.run_one("open-options-grid", &c, || oo::check(&env, &c));
+        }
+    } else {
+        let grid = oo::grid();
+        let total = grid.len();
+        let mut seen: BTreeSet<String> = BTreeSet::new();
+        for (i, c) in grid.iter().enumerate() {
+            if i % ctx.nworkers as usize != ctx.worker as usize {
+                continue;
+            }
+            let res: CaseResult = match catch(|| oo::check(&env, c)) {
+                Ok(r) => r,
+                Err((loc, msg)) => Err(Failure::new(format!("open-options-grid|panic|{loc}"), format!("panicked at {loc}: {msg}"))),
+            };
+            if let Err(f) = &res {
+                if !seen.insert(f.sig.clone()) {
+                    continue;
+                }
+            }
+            ctx.run_one("open-options-grid", c, move || res);
+        }
+        if !ctx.has_failure() {
+            ctx.note_exhaustive(format!("open-options-grid: all 64 switch combinations x 5 kinds of existing path = {total} cases (split over the workers)"));
+        }
+    }
+    ctx.run_prop("open-options", ctx.cases(300, 5_000), oo::strategy(), |c: &oo::OoCase| oo::check(&env, c));
+    lap("open-options");
     // mixed histories
     ctx.run_prop("history", ctx.cases(150, 1_600), case_of(tree(12, max_many, 1, big), op_any(big), 30), f);
     lap("history");
